@@ -108,7 +108,10 @@ def handle (j : Json) : IO Unit := do
   | "xlate" =>
     let ok := guardOk (jget impl "guard")
     emit case true ok (s!"xlate.{jstr (jget j "how")}." ++ (if jbool (jget j "stream") then "stream" else "resp"))
-      (if ok then "" else "translator-panic-or-hang") (if ok then "" else s!"{(jget impl "guard").compress} {jstr (jget impl "outcome")}")
+      (if ok then "" else "translator-panic-or-hang")
+      (if ok then "" else s!"{(jget impl "guard").compress} {jstr (jget impl "outcome")}" ++
+        -- boundary cases (how = u8.<place>): where the backend's string sat and how long it was, in bytes and in characters
+        (if jstr (jget j "place") == "" then "" else s!" — backend string in '{jstr (jget j "place")}' ({jstr (jget j "alphabet")}): {jnat (jget j "bytes")} bytes, {jnat (jget j "runes")} characters, hex {jstr (jget j "payload_hex")}"))
   | "recover" =>
     -- production wiring: the listing fetched when the endpoint recovers is unusable; by errorKeeps the endpoint's
     -- previous catalogue stays (the endpoint is healthy again and still serves those models)
